@@ -1088,7 +1088,9 @@ func checkC16(c *core.Ctx) {
 	if readonlyDerived(info, ff, passed) {
 		raised = true
 	}
-	if len(passed) == 0 {
+	if len(passed) == 0 && readonlyWrittenOnTheSpot(c, p, info, ff) {
+		// R5d decided it
+	} else if len(passed) == 0 {
 		c.Undecide("format does not call formatStruct with a boolean variable: how the readonly marker travels is not recognised")
 	} else {
 		c.Check("R5", "the readonly marker reaches formatStruct", p.Pos(ff.Pos()), raised, "no boolean set in the readonly arm is passed to formatStruct: `readonly struct` is formatted as `struct`")
@@ -2153,4 +2155,93 @@ func attributeMarkersSurviveComments(c *core.Ctx, p *load.Prog, ff *ast.FuncDecl
 			"format raises "+m.Name()+" in its arm for `[` and hands it to a definition's formatter, but clears it on a "+lost+" token: ReadFile keeps the attribute pending across comments, so `[flags]`, a doc comment, and then the enum is one flags enum for the parser and a plain one for the formatter, which then copies only part of each member's value")
 	}
 	c.Count("formatter_attribute_markers", n)
+}
+
+// readonlyWrittenOnTheSpot: R5d. The other way to carry `readonly` to the
+// struct: the arm for the keyword writes it itself and the arm for `struct`
+// writes the rest. The parser wants the record keyword right after `readonly`,
+// so nothing may be written in between: every bool the struct arm tests before
+// it writes a line break (the pending blank line between records) is cleared
+// in the readonly arm. Returns false when the readonly arm writes nothing.
+func readonlyWrittenOnTheSpot(c *core.Ctx, p *load.Prog, info *types.Info, ff *ast.FuncDecl) bool {
+	arm := func(kind string) *ast.CaseClause {
+		var out *ast.CaseClause
+		ast.Inspect(ff.Body, func(n ast.Node) bool {
+			if cl, ok := n.(*ast.CaseClause); ok && out == nil {
+				for _, e := range cl.List {
+					if wire.Canon(e) == kind {
+						out = cl
+					}
+				}
+			}
+			return out == nil
+		})
+		return out
+	}
+	isWrite := func(call *ast.CallExpr) bool {
+		sel, ok := ast.Unparen(call.Fun).(*ast.SelectorExpr)
+		return ok && (sel.Sel.Name == "SafeWrite" || sel.Sel.Name == "Write" || sel.Sel.Name == "WriteString")
+	}
+	ro, st := arm("tokenKindReadOnly"), arm("tokenKindStruct")
+	if ro == nil || st == nil {
+		return false
+	}
+	writes := false
+	for _, s := range ro.Body {
+		ast.Inspect(s, func(n ast.Node) bool {
+			if call, ok := n.(*ast.CallExpr); ok && isWrite(call) {
+				ast.Inspect(call, func(k ast.Node) bool {
+					if bl, ok := k.(*ast.BasicLit); ok && strings.Contains(bl.Value, "readonly") {
+						writes = true
+					}
+					return true
+				})
+			}
+			return true
+		})
+	}
+	if !writes {
+		return false
+	}
+	// flags guarding a line break in the struct arm
+	for _, s := range st.Body {
+		ifs, ok := s.(*ast.IfStmt)
+		if !ok {
+			continue
+		}
+		id, ok := ast.Unparen(ifs.Cond).(*ast.Ident)
+		if !ok {
+			continue
+		}
+		breaks := false
+		ast.Inspect(ifs.Body, func(n ast.Node) bool {
+			if call, ok := n.(*ast.CallExpr); ok && isWrite(call) {
+				ast.Inspect(call, func(k ast.Node) bool {
+					if bl, ok := k.(*ast.BasicLit); ok && (strings.Contains(bl.Value, `\n`) || bl.Value == "'\\n'") {
+						breaks = true
+					}
+					return true
+				})
+			}
+			return true
+		})
+		if !breaks {
+			continue
+		}
+		flag := info.ObjectOf(id)
+		cleared := false
+		for _, rs := range ro.Body {
+			if as, ok := rs.(*ast.AssignStmt); ok && len(as.Lhs) == 1 && len(as.Rhs) == 1 {
+				if l, ok := as.Lhs[0].(*ast.Ident); ok && info.ObjectOf(l) == flag {
+					if tv := info.Types[as.Rhs[0]]; tv.Value != nil && tv.Value.String() == "false" {
+						cleared = true
+					}
+				}
+			}
+		}
+		c.Check("R5d", "nothing is written between `readonly` and `struct` (pending line break "+id.Name+")", p.Pos(ifs.Pos()), cleared,
+			"the arm for `readonly` writes the keyword and leaves "+id.Name+" as it was; the arm for `struct` then writes the pending line break first: `readonly` and `struct` end up on two lines, which ReadFile refuses")
+	}
+	c.Check("R5d", "the readonly keyword is written where it is read (scan complete)", p.Pos(ro.Pos()), true, "")
+	return true
 }
